@@ -85,6 +85,9 @@ impl Engine for Inj {
         out
     }
     fn gen(&self, rng: &mut Rng, _idx: usize, tier: Tier, _focus: &str) -> Case {
+        if rng.chance(1, if tier == Tier::Quick { 60 } else { 400 }) {
+            return Case { lines: vec![format!("stress {} {}", rng.range(2, 4), if tier == Tier::Quick { 300000 } else { 2000000 })] };
+        }
         let n = rng.range(5, if tier == Tier::Quick { 60 } else { 200 });
         let mut lines = vec!["case inj".to_string()];
         let mut next = 1u64;
@@ -126,6 +129,50 @@ impl Engine for Inj {
         for l in lines {
             let w: Vec<&str> = l.split_whitespace().collect();
             let r = match (w.as_slice(), &q) {
+                (["stress", threads, iters], _) => {
+                    // several threads push buckets and pop them concurrently; once they have all finished nothing is in
+                    // progress, so the advisory flag must be exact again and every task pushed must be handed out exactly once
+                    let (threads, iters): (u64, u64) = (threads.parse().unwrap(), iters.parse().unwrap());
+                    let q = std::sync::Arc::new(VInjector::new());
+                    let hs: Vec<_> = (0..threads)
+                        .map(|ti| {
+                            let q = q.clone();
+                            std::thread::spawn(move || {
+                                let mut got: Vec<u64> = Vec::new();
+                                for k in 0..iters {
+                                    // the queue hovers around empty: most pops take the last bucket while another thread
+                                    // pushes onto the empty queue
+                                    if k % 4 == 0 {
+                                        q.insert_task(ti * 100_000_000 + k);
+                                    } else if k % 4 == 2 {
+                                        q.push_bucket(&[ti * 100_000_000 + k]);
+                                    } else if let Some(b) = q.pop_bucket() {
+                                        got.extend(b);
+                                    }
+                                }
+                                got
+                            })
+                        })
+                        .collect();
+                    let mut got: Vec<u64> = hs.into_iter().flat_map(|h| h.join().unwrap()).collect();
+                    let flag_before_drain = q.is_empty();
+                    let mut drained = 0usize;
+                    while let Some(b) = q.pop_bucket() {
+                        drained += b.len();
+                        got.extend(b);
+                    }
+                    let mut want: Vec<u64> = (0..threads).flat_map(|ti| (0..iters).filter(move |k| k % 2 == 0).map(move |k| ti * 100_000_000 + k)).collect();
+                    want.sort();
+                    got.sort();
+                    if got != want {
+                        let missing = want.len() as i64 - got.len() as i64;
+                        out.monitor.push(("C04".into(), format!("{threads} threads pushed and popped concurrently ({iters} operations each); afterwards the injector hands out {} of the {} tasks that were put in ({missing} never come out: `is_empty()` = {flag_before_drain}, pop_bucket answers None): runnable work has become invisible to the workers", got.len(), want.len())));
+                    }
+                    out.nontrivial = true;
+                    out.tags.push("stress".into());
+                    let _ = drained;
+                    format!("stress {}", if got == want { "ok" } else { "lost" })
+                }
                 (["case", "inj"], _) => {
                     q = Some(VInjector::new());
                     held.clear();
